@@ -73,8 +73,23 @@ def closure_has_side_effect(stmts):
     return bool(found)
 
 
+def argument_has_side_effect(stmts):
+    found = []
+
+    def f(n, ctx):
+        if n[0] in ("assign", "massign", "assign2") or (n[0] == "call" and n[1] == "del"):
+            if any(c.startswith("arg:") and c not in ("arg:del", "arg:probe") for c in ctx):
+                found.append(n[0])
+    A.walk_program(stmts, f)
+    return bool(found)
+
+
 def classify(small, where):
     kinds = fc.interesting_kinds(small)
+    if argument_has_side_effect(small) and not any(k in kinds for k in ("closure", "map_keys", "map_values", "filter", "for_each")):
+        # upstream issue 13752: every argument is type-checked against the state *before* the call,
+        # so a side effect in one argument is invisible to the others
+        return "fail:%s:argument_side_effect" % where.split(":")[0]
     if any(k in kinds for k in ("closure", "map_keys", "map_values", "filter", "for_each")):
         return "fail:%s:closure" % where.split(":")[0]
     if closure_has_side_effect(small):
